@@ -1,6 +1,7 @@
 import Ufo2ftModel.Props.Flatten
 import Ufo2ftModel.Props.Reverse
 import Ufo2ftModel.Props.Propagate
+import Ufo2ftModel.Props.Propagate2
 import Ufo2ftModel.Props.Transform
 import Ufo2ftModel.Spec.C15
 /-! Property C15: the theorems, assembled from the shared geometry proofs
@@ -291,5 +292,200 @@ theorem C15_transform_nonconvex :
   have h2 := List.perm_singleton.mp h1
   simp only [List.cons.injEq, Pt.mk.injEq, and_true] at h2
   grind
+
+end Ufo2ft.C15
+
+namespace Ufo2ft.C15
+open Ufo2ft List
+
+/-! ### PropagateAnchorsFilter: placement, completeness, idempotence (proofs in Props/Propagate2.lean) -/
+
+/-- **C15 (anchor propagation, placement)**: for every acyclic glyph set with distinct keys equal to the glyph names, every
+    mark list and every include predicate, `propagateWrong` finds nothing in the filter's output: each glyph keeps outline,
+    components, advance and its own anchors (first, unchanged); every ADDED anchor lies at `k.t.apply (ba.x, ba.y)` for a
+    component `k` of the glyph and an anchor `ba` — same name, or the numbered `name_N` — of `k`'s base in the FINAL glyph
+    set; and no added anchor has the name of an anchor the glyph already had. -/
+theorem C15_propagate_placed (marks : List String) (incl : String → Bool) (gs : GlyphSet) (rank : String → Nat) (st : FState)
+    (hr : Ranked gs rank) (hn : Named gs) (hnd : gs.names.Nodup)
+    (h : runFilter (propagateStep marks) incl gs = .ok st) : propagateWrong gs st.gs = [] := by
+  obtain ⟨_, hnames, _⟩ := runFilter_propagate_inv marks incl gs rank st hr hn h
+  unfold propagateWrong
+  rw [List.map_eq_nil_iff, List.filter_eq_nil_iff]
+  intro e he
+  obtain ⟨n, g'⟩ := e
+  have hn' : n ∈ gs.names := by rw [← hnames]; exact mem_map_of_mem (f := (·.1)) he
+  obtain ⟨g, hg⟩ := mem_names_get gs n hn'
+  have hg' : st.gs.get? n = some g' := get_of_mem_nodup st.gs (by rw [hnames]; exact hnd) n g' he
+  obtain ⟨added, e, hadd⟩ := propagate_placed marks incl gs rank st hr hn h n g g' hg hg'
+  subst e
+  simp only [hg, take_left', drop_left', beq_self_eq_true, Bool.true_and, Bool.not_eq_true', Bool.not_eq_false]
+  rw [Bool.and_eq_true, List.all_eq_true, List.all_eq_true]
+  constructor
+  · intro a ha
+    obtain ⟨⟨k, hk, b, hb, ba, hba, hnm, hpos⟩, _⟩ := hadd a ha
+    refine List.any_eq_true.mpr ⟨k, hk, ?_⟩
+    rw [hb]
+    exact List.any_eq_true.mpr ⟨ba, hba, by rw [hnm, hpos]; simp⟩
+  · intro a ha
+    have := (hadd a ha).2
+    rw [Bool.not_eq_true', List.any_eq_false]
+    intro o ho
+    simpa using this o ho
+
+
+/-- **C15 (anchor propagation, completeness)**: `propagateMissing` finds nothing: an included composite (not a mark glyph
+    that already has anchors) all of whose components' bases are non-mark glyphs has, for every anchor of every base, either
+    an own anchor whose name starts with that name or a propagated anchor of that (possibly numbered) name. -/
+theorem C15_propagate_complete (marks : List String) (incl : String → Bool) (gs : GlyphSet) (rank : String → Nat) (st : FState)
+    (hr : Ranked gs rank) (hn : Named gs) (hnd : gs.names.Nodup)
+    (h : runFilter (propagateStep marks) incl gs = .ok st) : propagateMissing marks incl gs st.gs = [] := by
+  obtain ⟨_, hnames, _⟩ := runFilter_propagate_inv marks incl gs rank st hr hn h
+  unfold propagateMissing
+  rw [List.map_eq_nil_iff, List.filter_eq_nil_iff]
+  intro e he
+  obtain ⟨n, g'⟩ := e
+  have hn' : n ∈ gs.names := by rw [← hnames]; exact mem_map_of_mem (f := (·.1)) he
+  obtain ⟨g, hg⟩ := mem_names_get gs n hn'
+  have hg' : st.gs.get? n = some g' := get_of_mem_nodup st.gs (by rw [hnames]; exact hnd) n g' he
+  obtain ⟨added, e, _⟩ := propagate_placed marks incl gs rank st hr hn h n g g' hg hg'
+  have hcomps : g'.comps = g.comps := by rw [e]
+  simp only [hg]
+  intro hall
+  simp only [Bool.and_eq_true, Bool.not_eq_eq_eq_not, Bool.not_true] at hall
+  obtain ⟨⟨⟨⟨hincl, hne⟩, hmk⟩, hbases⟩, hfail⟩ := hall
+  have hs : skipCond marks n g = false := by
+    unfold skipCond; rw [hne, Bool.false_or]; exact hmk
+  have : (g'.comps.all fun k => match st.gs.get? k.base with
+      | none => true
+      | some b => b.anchors.all fun ba =>
+          (g.anchors.any fun o => o.name.startsWith ba.name) || g'.anchors.any fun a => nameMatches a.name ba.name) = true := by
+    rw [List.all_eq_true]
+    intro k hk
+    have hkb := List.all_eq_true.mp hbases k hk
+    cases hb : st.gs.get? k.base with
+    | none => rfl
+    | some b =>
+      rw [hb] at hkb
+      dsimp only at hkb ⊢
+      rw [List.all_eq_true]
+      intro ba hba
+      rw [Bool.or_eq_true]
+      rcases propagate_complete marks incl gs rank st hr hn h n g g' hg hg' hincl hs k (hcomps ▸ hk) b hb
+        (by simpa using hkb) ba hba with h1 | ⟨a, ha, hnm⟩
+      · exact Or.inl h1
+      · exact Or.inr (List.any_eq_true.mpr ⟨a, ha, hnm⟩)
+  exact Bool.false_ne_true (hfail.symm.trans this)
+
+/-- **C15 (anchor propagation, idempotence)**: running the filter again on its own output changes nothing and reports
+    nothing as modified — numbered ligature anchors included (`top_1` starts with `top`, so `top` is not propagated again). -/
+theorem C15_propagate_idempotent (marks : List String) (incl : String → Bool) (gs : GlyphSet) (rank : String → Nat)
+    (st st2 : FState) (hr : Ranked gs rank) (hn : Named gs) (h : runFilter (propagateStep marks) incl gs = .ok st)
+    (h2 : runFilter (propagateStep marks) incl st.gs = .ok st2) : st2.gs = st.gs ∧ st2.modified = [] :=
+  propagate_idempotent marks incl gs rank st st2 hr hn h h2
+
+/-- **C15 (anchor propagation)**: on every acyclic glyph set with distinct keys equal to the glyph names, for every mark list
+    and include predicate, the whole declarative predicate `holdsPropagate` — the one the driver evaluates on the observed
+    result of the real filter — holds of the model's result `st` and of a second run `st2` on it: nothing overridden,
+    every added anchor at T(base anchor) of a component's final base, nothing missing on base-only composites, same keys,
+    and the second run modifies nothing. -/
+theorem C15_propagate (marks : List String) (incl : String → Bool) (gs : GlyphSet) (rank : String → Nat)
+    (st st2 : FState) (hr : Ranked gs rank) (hn : Named gs) (hnd : gs.names.Nodup)
+    (h : runFilter (propagateStep marks) incl gs = .ok st)
+    (h2 : runFilter (propagateStep marks) incl st.gs = .ok st2) :
+    holdsPropagate marks incl gs st.gs st2.modified (st2.gs == st.gs) = true := by
+  obtain ⟨_, hnames, _⟩ := runFilter_propagate_inv marks incl gs rank st hr hn h
+  obtain ⟨i1, i2⟩ := propagate_idempotent marks incl gs rank st st2 hr hn h h2
+  unfold holdsPropagate
+  rw [C15_propagate_placed marks incl gs rank st hr hn hnd h, C15_propagate_complete marks incl gs rank st hr hn hnd h,
+    hnames, i1, i2]
+  simp
+
+/-! ### non-vacuity: a → b (scaled by 2 and offset) → c (= b offset + a scaled by 1/2: a ligature of two `top` carriers)
+
+`b` receives `top` at 2·(100,500)+(10,20) = (210,1020); `c` receives `top_1` = b's FINAL `top` moved by (100,0) and
+`top_2` = a's `top` halved and moved by (700,0).  The model is evaluated by `simp` on these concrete inputs. -/
+
+def pA : Glyph := ⟨"a", 500, 0, [], [], [⟨"top", 100, 500⟩]⟩
+def pB : Glyph := ⟨"b", 500, 0, [], [⟨"a", ⟨2, 0, 0, 2, 10, 20⟩⟩], []⟩
+def pC : Glyph := ⟨"c", 900, 0, [], [⟨"b", ⟨1, 0, 0, 1, 100, 0⟩⟩, ⟨"a", ⟨1/2, 0, 0, 1/2, 700, 0⟩⟩], []⟩
+def gsP : GlyphSet := [("c", pC), ("b", pB), ("a", pA)]
+def rankP (n : String) : Nat := if n = "c" then 2 else if n = "b" then 1 else 0
+
+def gsP' : GlyphSet := [("c", { pC with anchors := [⟨"top_1", 310, 1020⟩, ⟨"top_2", 750, 250⟩] }),
+          ("b", { pB with anchors := [⟨"top", 210, 1020⟩] }), ("a", pA)]
+
+theorem gsP_order : orderedGlyphs gsP = .ok ["c", "b", "a"] := by
+  simp [orderedGlyphs, depthsOf, maxComponentDepth, depthGlyph, depthComps, gsP, pA, pB, pC, GlyphSet.get?, alookup]
+  rw [List.mergeSort_of_pairwise (by simp)]
+  rfl
+
+
+theorem gsP_run : runFilter (propagateStep []) (fun _ => true) gsP =
+    .ok ⟨gsP', ["b", "c"], ["c", "b", "a"]⟩ := by
+  unfold runFilter
+  rw [gsP_order]
+  simp [filterLoop, propagateStep, propagate, propagateComps, gsP, gsP', pA, pB, pC, GlyphSet.get?, alookup, addMod,
+    GlyphSet.set, Affine.apply, getAnchorData, adjustAnchors, adSet, sortStr, isLigatureMark]
+  have e1 : toString "top" ++ toString "_" ++ Nat.repr 1 = "top_1" := by decide +kernel
+  have e2 : toString "top" ++ toString "_" ++ Nat.repr 2 = "top_2" := by decide +kernel
+  rw [e1, e2]
+  refine ⟨?_, by grind, by grind⟩
+  rw [List.mergeSort_of_pairwise (by simp only [pairwise_cons, mem_singleton, forall_eq, strLe]; decide +kernel)]
+  simp only [map_cons, map_nil]
+  congr 2 <;> (congr 1 <;> grind)
+
+theorem gsP'_order : orderedGlyphs gsP' = .ok ["c", "b", "a"] := by
+  simp [orderedGlyphs, depthsOf, maxComponentDepth, depthGlyph, depthComps, gsP', pA, pB, pC, GlyphSet.get?, alookup]
+  rw [List.mergeSort_of_pairwise (by simp)]
+  rfl
+
+theorem gsP_run2 : runFilter (propagateStep []) (fun _ => true) gsP' = .ok ⟨gsP', [], ["c", "b", "a"]⟩ := by
+  unfold runFilter
+  rw [gsP'_order]
+  have s2 : ("top".startsWith "_") = false := by decide +kernel
+  simp [filterLoop, propagateStep, propagate, propagateComps, gsP', pA, pB, pC, GlyphSet.get?, alookup, addMod,
+    Affine.apply, getAnchorData, adjustAnchors, adSet, sortStr, isLigatureMark, s2]
+
+theorem gsP_cases {P : String → Glyph → Prop} (n : String) (g : Glyph) (h : gsP.get? n = some g)
+    (hc : P "c" pC) (hb : P "b" pB) (ha : P "a" pA) : P n g := by
+  simp only [gsP, GlyphSet.get?, alookup] at h
+  split at h
+  · cases h; rename_i e; have : n = "c" := (by simpa using e : _ = n).symm
+    subst this; exact hc
+  · split at h
+    · cases h; rename_i e; have : n = "b" := (by simpa using e : _ = n).symm
+      subst this; exact hb
+    · split at h
+      · cases h; rename_i e; have : n = "a" := (by simpa using e : _ = n).symm
+        subst this; exact ha
+      · cases h
+
+theorem gsP_ranked : Ranked gsP rankP := by
+  intro n g h
+  refine gsP_cases (P := fun n g => ∀ k ∈ g.comps, rankP k.base < rankP n) n g h ?_ ?_ ?_
+  · intro k hk; simp only [pC, mem_cons, not_mem_nil, or_false] at hk
+    rcases hk with rfl | rfl <;> decide
+  · intro k hk; simp only [pB, mem_singleton] at hk; subst hk; decide
+  · intro k hk; cases hk
+
+theorem gsP_named : Named gsP := by
+  intro n g h
+  exact gsP_cases (P := fun n g => g.name = n) n g h rfl rfl rfl
+
+/-- non-vacuity of `C15_propagate_placed` and `C15_propagate_complete`: their hypotheses hold of `gsP`, the run succeeds
+    and modifies `b` and `c` -/
+example : ∃ st, runFilter (propagateStep []) (fun _ => true) gsP = .ok st ∧ st.modified = ["b", "c"] ∧
+    propagateWrong gsP st.gs = [] ∧ propagateMissing [] (fun _ => true) gsP st.gs = [] :=
+  ⟨_, gsP_run, rfl, C15_propagate_placed [] _ gsP rankP _ gsP_ranked gsP_named (by decide) gsP_run,
+    C15_propagate_complete [] _ gsP rankP _ gsP_ranked gsP_named (by decide) gsP_run⟩
+
+/-- non-vacuity of `C15_propagate_idempotent` and `C15_propagate`: both runs succeed on `gsP` (the second one on a glyph
+    set that has the numbered anchors `top_1`, `top_2`), and the whole predicate holds -/
+example : ∃ st st2, runFilter (propagateStep []) (fun _ => true) gsP = .ok st ∧
+    runFilter (propagateStep []) (fun _ => true) st.gs = .ok st2 ∧ st2.gs = st.gs ∧ st2.modified = [] ∧
+    holdsPropagate [] (fun _ => true) gsP st.gs st2.modified (st2.gs == st.gs) = true :=
+  ⟨_, _, gsP_run, gsP_run2, (C15_propagate_idempotent [] _ gsP rankP _ _ gsP_ranked gsP_named gsP_run gsP_run2).1,
+    (C15_propagate_idempotent [] _ gsP rankP _ _ gsP_ranked gsP_named gsP_run gsP_run2).2,
+    C15_propagate [] _ gsP rankP _ _ gsP_ranked gsP_named (by decide) gsP_run gsP_run2⟩
 
 end Ufo2ft.C15
